@@ -234,11 +234,48 @@ Contract(
     note='assumed here, decided by C10: a MarkovCracker yields the strings of its level one by one, then None',
 )
 
+class _Any(T.Shape):
+    """an opaque value no contract looks into (e.g. the placeholder pt_item handed to restore_omen)"""
+
+    def key(self):
+        return 'any'
+
+    def sort(self):
+        return z3.DeclareSort('AnyVal')
+
+
+ANY = _Any()
+OMN = TRec({'seq': OUT, 'pos': TInt})      # ghost: what the .omn pickle holds (generator sequence and cursor)
+
+
+def omn_of(mc):
+    return OMN.mk(seq=mc.fields['seq'].term, pos=mc.fields['pos'].term)
+
+
+def omn_rest(omn):
+    seq, pos = OMN.get(omn, 'seq'), OMN.get(omn, 'pos')
+    return z3.Extract(seq, pos, z3.Length(seq) - pos)
+
+
 Contract(
     MC + '.save_session',
-    params={'self': MC_OBJ, 'file_name': TStr},
+    params={'self': MC_OBJ, 'file_name': TStr, '$omn': OMN},
+    ensures=lambda c: [('pickled', box(c.after['$omn'], OMN) == omn_of(c.self))],
     trusted=True,
-    note='pickles the cursor (C15)',
+    note='pickles the cursor (C15): the .omn file holds the generator state after the last emitted guess '
+         '(the real class is exercised by the bounded stand-in C15.bounded.cuts)',
+)
+
+Contract(
+    MC + '.load_session',
+    params={'self': MC_OBJ, 'file_name': TStr, 'pt_item': ANY, '$omn': OMN},
+    self_modifies=('seq', 'pos'),
+    ensures=lambda c: [('unpickled', omn_of(c.after['self']) == box(c.args['$omn'], OMN)),
+                       ('file_kept', box(c.after['$omn'], OMN) == box(c.args['$omn'], OMN)),
+                       ('A_PICKLE_wf', z3.And(0 <= c.after['self'].fields['pos'].term,
+                                              c.after['self'].fields['pos'].term <= z3.Length(c.after['self'].fields['seq'].term)))],
+    trusted=True,
+    note='C15: restores the pickled cursor; A-PICKLE: the .omn file is only ever written by save_session, so the cursor is in range',
 )
 
 
@@ -267,6 +304,14 @@ def _ogg_ensures(c):
         ('exit_seen_monotone', z3.Implies(c.args['$exit_seen'].term, c.after['$exit_seen'].term)),
         ('exit_only_on_quit', z3.Implies(c.after['$exit_seen'].term, z3.Or(c.args['$exit_seen'].term, c.args['$quit'].term))),
         ('cursor', mc1.fields['pos'].term == mc0.fields['pos'].term + res),
+        # C15.save.point: a stop inside the level pickles the cursor right after the last emitted guess; otherwise the .omn file is untouched
+        ('cursor_pickled_on_quit', z3.Implies(z3.And(c.after['$exit_seen'].term, z3.Not(c.args['$exit_seen'].term)),
+                                              z3.And(c.after['self'].fields['omen_exit'].term,
+                                                     box(c.after['$omn'], OMN) == OMN.mk(seq=mc0.fields['seq'].term,
+                                                                                    pos=mc0.fields['pos'].term + res)))),
+        ('pickle_kept_otherwise', z3.Implies(z3.Not(c.after['$exit_seen'].term),
+                                             z3.And(box(c.after['$omn'], OMN) == box(c.args['$omn'], OMN),
+                                                    c.after['self'].fields['omen_exit'].term == c.self.fields['omen_exit'].term))),
         ('guess_num', c.after['self'].fields['omen_guess_num'].term >= c.self.fields['omen_guess_num'].term),
     ]
 
@@ -289,6 +334,8 @@ def _ogg_inv(L):
         ('omen_exit_kept', L.self.fields['omen_exit'].term == L.entry.args['self'].fields['omen_exit'].term),
         ('guess_num_mono', L.self.fields['omen_guess_num'].term >= L.entry.args['self'].fields['omen_guess_num'].term),
         ('exit_seen_kept', L.env['$exit_seen'].term == L.entry.args['$exit_seen'].term),
+        ('pickle_kept', box(L.env['$omn'], OMN) == box(L.entry.args['$omn'], OMN)),
+        ('seq_kept', L.markov_cracker.fields['seq'].term == mc0.fields['seq'].term),
     ]
     gsh = TOpt(TStr)
     g = box(guess, gsh) if not isinstance(guess, PNone) else gsh.none()
@@ -303,7 +350,8 @@ def _ogg_inv(L):
 
 _ogg = Contract(
     MOD + ':PcfgGrammar.omen_generate_guesses',
-    params={'self': GRAMMAR_OBJ, 'markov_cracker': MC_OBJ, 'limit': TOpt(TInt), '$out': OUT, '$quit': TBool, '$exit_seen': TBool},
+    params={'self': GRAMMAR_OBJ, 'markov_cracker': MC_OBJ, 'limit': TOpt(TInt), '$out': OUT, '$quit': TBool, '$exit_seen': TBool,
+            '$omn': OMN},
     requires=_ogg_requires,
     result=TInt,
     ensures=_ogg_ensures,
@@ -311,7 +359,7 @@ _ogg = Contract(
     self_modifies=('omen_guess_num', 'omen_exit'),
     locals={'guess': TOpt(TStr), 'limit': TOpt(TInt)},
     loops={0: LoopSpec(fingerprint='while guess is not None', inv=_ogg_inv, shapes={'guess': TOpt(TStr)},
-                       extra_writes=['$exit_seen'])},
+                       extra_writes=['$exit_seen', '$omn'])},
     note='C04.count / C09.limit.omen.post / C12 / C15.save.point',
 )
 _ogg.volatile = {'should_exit': read_should_exit}
@@ -383,6 +431,8 @@ def _rg_ensures(c):
                                                      c.after['self'].fields['omen_exit'].term, category(c.pt.term) == ord('M')))),
         ('exit_seen_monotone', z3.Implies(c.args['$exit_seen'].term, c.after['$exit_seen'].term)),
         ('exit_only_on_quit', z3.Implies(c.after['$exit_seen'].term, z3.Or(c.args['$exit_seen'].term, c.args['$quit'].term))),
+        ('omen_exit_only_on_quit', z3.Implies(z3.Not(c.after['$exit_seen'].term),
+                                              c.after['self'].fields['omen_exit'].term == c.self.fields['omen_exit'].term)),
     ]
 
 
@@ -404,6 +454,8 @@ def _rg_inv_common(L, j):
                                L.limit.term == lim0)),
         ('exit_seen_monotone', z3.Implies(e.args['$exit_seen'].term, L.env['$exit_seen'].term)),
         ('exit_only_on_quit', z3.Implies(L.env['$exit_seen'].term, z3.Or(e.args['$exit_seen'].term, e.args['$quit'].term))),
+        ('omen_exit_only_on_quit', z3.Implies(z3.Not(L.env['$exit_seen'].term),
+                                              L.self.fields['omen_exit'].term == e.args['self'].fields['omen_exit'].term)),
     ]
 
 
@@ -475,6 +527,8 @@ def _cg_ensures(c):
                                                      c.after['self'].fields['omen_exit'].term, category(c.pt.term) == ord('M')))),
         ('exit_seen_monotone', z3.Implies(c.args['$exit_seen'].term, c.after['$exit_seen'].term)),
         ('exit_only_on_quit', z3.Implies(c.after['$exit_seen'].term, z3.Or(c.args['$exit_seen'].term, c.args['$quit'].term))),
+        ('omen_exit_only_on_quit', z3.Implies(z3.Not(c.after['$exit_seen'].term),
+                                              c.after['self'].fields['omen_exit'].term == c.self.fields['omen_exit'].term)),
     ]
 
 
